@@ -1464,6 +1464,106 @@ static err_t s_bignKUoc(int var)
 	return RUN("bignKeyUnwrap", bignKeyUnwrap(XO, PARAMS, XT, no + 32 + 16, HDR16, PRIV));
 }
 
+/* ------------------------------------------------------------------ bad-private-key exits with a NON-ZERO invalid key as the secret.
+   The key is q with its low 8 octets replaced by a distinctive pattern (raised above q if necessary): the caller's key is
+   still a secret when the function rejects it, and it has usually been copied into the state by then. */
+static octet BK[80];
+static void mk_badkey(const octet* q, size_t n)
+{
+	static const octet pat[8] = { 0xB7, 0x3C, 0x95, 0x1E, 0xD2, 0x68, 0x4A, 0xFE };
+	size_t i; int lt = 0;
+	memcpy(BK, q, n); memcpy(BK, pat, 8);
+	for (i = 8; i-- > 0;) if (BK[i] != q[i]) { lt = BK[i] < q[i]; break; }
+	if (lt) for (i = 8; i < n; ++i) if (++BK[i]) break;
+	sec_add(BK, 8, "rejected-privkey");
+}
+#define BADKEY(NAME, FN, SETUP, Q, N, OUTS, CALL) \
+static err_t NAME(int var) { err_t code; material(); bign_setup(); oid_setup(); SETUP; sec_reset(); out_reset(); \
+	mk_badkey(Q, N); if (var == 1) memset(BK + 8, 0xFF, (N) - 8);      /* var 1: ff..ff above the pattern */ \
+	OUTS; g_expect = ERR_BAD_PRIVKEY; tape_start(); return RUN(FN, CALL); }
+BADKEY(s_bkSign, "bignSign", (void)0, PARAMS->q, 32, out_add(BUF1, 48), bignSign(BUF1, PARAMS, OIDDER, OIDLEN, DATA, BK, prngEchoStepR, ECHO))
+BADKEY(s_bkSign2, "bignSign2", (void)0, PARAMS->q, 32, out_add(BUF1, 48), bignSign2(BUF1, PARAMS, OIDDER, OIDLEN, DATA, BK, 0, 0))
+BADKEY(s_bkCalc, "bignPubkeyCalc", (void)0, PARAMS->q, 32, out_add(BUF1, 64), bignPubkeyCalc(BUF1, PARAMS, BK))
+BADKEY(s_bkVal, "bignKeypairVal", (void)0, PARAMS->q, 32, (void)0, bignKeypairVal(PARAMS, BK, PUB))
+BADKEY(s_bkDH, "bignDH", (void)0, PARAMS->q, 32, out_add(BUF1, 32), bignDH(BUF1, PARAMS, BK, PUB, 32))
+BADKEY(s_bkKU, "bignKeyUnwrap", (tape_start(), bignKeyWrap(BUF2, PARAMS, K32, 32, HDR16, PUB, prngEchoStepR, ECHO)), PARAMS->q, 32, out_add(BUF1, 32), bignKeyUnwrap(BUF1, PARAMS, BUF2, 80, HDR16, BK))
+BADKEY(s_bk96Sign, "bign96Sign", b96_setup(), P96->q, 24, out_add(BUF1, 34), bign96Sign(BUF1, P96, OIDDER, OIDLEN, DATA, BK, prngEchoStepR, ECHO))
+BADKEY(s_bk96Sign2, "bign96Sign2", b96_setup(), P96->q, 24, out_add(BUF1, 34), bign96Sign2(BUF1, P96, OIDDER, OIDLEN, DATA, BK, 0, 0))
+BADKEY(s_bk96Calc, "bign96PubkeyCalc", b96_setup(), P96->q, 24, out_add(BUF1, 48), bign96PubkeyCalc(BUF1, P96, BK))
+BADKEY(s_bk96Val, "bign96KeypairVal", b96_setup(), P96->q, 24, (void)0, bign96KeypairVal(P96, BK, PUB96))
+BADKEY(s_bkG12, "g12sSign", g12_setup(), G12P->q, 32, out_add(BUF1, 64), g12sSign(BUF1, G12P, DATA, BK, prngEchoStepR, ECHO))
+BADKEY(s_bkDstu, "dstuSign", ds_setup(), DSP->n, 21, out_add(BUF1, 64), dstuSign(BUF1, DSP, 512, DATA, 32, BK, prngEchoStepR, ECHO))
+BADKEY(s_bkCVCW, "btokCVCWrap", (cvc_setup(), memcpy(CVCX, CVC0, sizeof CVCX), CVCX->pubkey_len = 0, CERTX_LEN = 0), PARAMS->q, 32, (void)0, btokCVCWrap(CERTX, &CERTX_LEN, CVCX, BK, 32))
+/* pfok: an r-bit number with bit r set on top */
+static err_t s_bkPf(int var)
+{
+	err_t code; size_t r, no; material(); bign_setup(); pf_setup(); sec_reset(); out_reset();
+	r = PFP->r; no = (r + 7) / 8;
+	memcpy(BK, TAPE + 40, no); BK[no - 1] |= (octet)(1 << (r % 8));
+	if (r % 8 == 0) return ERR_BAD_LOGIC;
+	sec_add(BK, 16, "rejected-privkey");
+	out_add(BUF1, 80); g_expect = ERR_BAD_PRIVKEY;
+	if (var == 0) return RUN("pfokPubkeyCalc", pfokPubkeyCalc(BUF1, PFP, BK));
+	if (var == 1) return RUN("pfokDH", pfokDH(BUF1, PFP, BK, PFY));
+	return RUN("pfokMTI", pfokMTI(BUF1, PFP, BK, PFU, PFY, PFV));
+}
+/* wrong password of the right shape: the password is a secret even when it does not open the container */
+static err_t s_bkPwd(int var)
+{
+	err_t code; size_t l = 0, n = 0; octet pwd2[24];
+	material(); bign_setup(); sec_reset(); out_reset();
+	if (var == 0) bpkiPrivkeyWrap(BUF2, &l, PRIV, 32, DATA + 300, 24, IV16, 10000);
+	else { memcpy(BUF3 + 1, K32, 32); BUF3[0] = 3; bpkiShareWrap(BUF2, &l, BUF3, 33, DATA + 300, 24, IV16, 10000); }
+	memcpy(pwd2, DATA + 500, 24);
+	sec_add(pwd2, 24, "rejected-password");
+	out_add(BUF1, 64); g_expect = ERR_BAD_KEYTOKEN;
+	if (var == 0) return RUN("bpkiPrivkeyUnwrap", bpkiPrivkeyUnwrap(BUF1, &n, BUF2, l, pwd2, 24));
+	return RUN("bpkiShareUnwrap", bpkiShareUnwrap(BUF1, &n, BUF2, l, pwd2, 24));
+}
+
+/* ------------------------------------------------------------------ small-integer fields INSIDE data buffers.
+   bels shares carry the number of the public key in their first octet (1..16, pairwise different): the field of the
+   first / middle / last share is set to 0, 1, 16, 17, 255.  var = position * 5 + value index. */
+static const octet FV[5] = { 0, 1, 16, 17, 255 };
+static err_t s_belsR2f(int var)
+{
+	err_t code; int pos = var / 5, vi = var % 5; size_t i;
+	material(); sec_reset(); out_reset(); sec_add(K32, 16, "secret");
+	belsShare3(BUF2, 16, 3, 16, K32);                      /* shares with numbers 1..16, 17 octets each */
+	for (i = 0; i < 3; ++i) memcpy(BUF3 + 17 * i, BUF2 + 17 * (4 + i), 17);        /* numbers 5, 6, 7 */
+	BUF3[17 * pos] = FV[vi];
+	out_add(BUF1, 16);
+	g_expect = (FV[vi] == 0 || FV[vi] > 16) ? ERR_BAD_PUBKEY : ERR_OK;     /* 1 and 16 are in range and differ from the others */
+	return RUN("belsRecover2", belsRecover2(BUF1, 3, 16, BUF3));
+}
+/* bpkiShareWrap: share[0] is the number of the share (1..16) */
+static err_t s_bpkiSWf(int var)
+{
+	err_t code; size_t l = 0;
+	material(); sec_reset(); out_reset();
+	memcpy(BUF3 + 1, K32, 32); BUF3[0] = FV[var];
+	sec_add(BUF3 + 1, 32, "share"); sec_add(DATA + 300, 24, "password");
+	out_add(BUF1, 256);
+	g_expect = (FV[var] == 0 || FV[var] > 16) ? ERR_BAD_SHAREKEY : ERR_OK;
+	return RUN("bpkiShareWrap", bpkiShareWrap(BUF1, &l, BUF3, 33, DATA + 300, 24, IV16, 10000));
+}
+/* OCRA suite string: number of digits of the password (header: 4..9 ... see botp.h), checked by botpOCRARand through the
+   suite parser: OCRA-1:HOTP-HBELT-<d>:C-QN08 with d in {0, 3, 4, 9, 10(=\":\" char after 9 -> ':'), …} */
+static err_t s_ocraf(int var)
+{
+	err_t code; static const char dg[6] = { '0', '3', '4', '9', ':', 'A' }; char suite[40];
+	material(); sec_reset(); out_reset(); sec_add(K32, 32, "key");
+	strcpy(suite, "OCRA-1:HOTP-HBELT-8:C-QN08"); suite[18] = dg[var];
+	out_add(OTP, 11);
+	g_expect = (dg[var] >= '4' && dg[var] <= '9') ? ERR_OK : ERR_BAD_FORMAT;
+	return RUN("botpOCRARand", botpOCRARand(OTP, suite, K32, 32, DATA, 8, DATA + 64, 0, 0, 0));
+}
+
+static err_t s_bkPf0(int v) { return s_bkPf(0); }
+static err_t s_bkPf1(int v) { return s_bkPf(1); }
+static err_t s_bkPf2(int v) { return s_bkPf(2); }
+static err_t s_bkPwd0(int v) { return s_bkPwd(0); }
+static err_t s_bkPwd1(int v) { return s_bkPwd(1); }
 static const scen_t SCEN2[] = {
 	{"b96Gen", "bign96KeypairGen", 5, s_b96Gen}, {"b96KVal", "bign96KeypairVal", 5, s_b96KVal},
 	{"b96Calc", "bign96PubkeyCalc", 5, s_b96Calc}, {"b96PVal", "bign96PubkeyVal", 4, s_b96PVal},
@@ -1498,6 +1598,13 @@ static const scen_t SCEN2[] = {
 	{"hotpx", "botpHOTPRand", 6, s_hotpx}, {"hotpVx", "botpHOTPVerify", 12, s_hotpVx}, {"totpx", "botpTOTPVerify", 12, s_totpx},
 	{"hmacx", "beltHMAC", 6, s_hmacx}, {"brnghx", "brngHMACRand", 6, s_brnghx}, {"pbkdfx", "beltPBKDF2", 5, s_pbkdfx},
 	{"bpkiPUx", "bpkiPrivkeyUnwrap", 1, s_bpkiPUx}, {"bignKUoc", "bignKeyUnwrap", 1, s_bignKUoc},
+	{"bkSign", "bignSign", 2, s_bkSign}, {"bkSign2", "bignSign2", 2, s_bkSign2}, {"bkCalc", "bignPubkeyCalc", 2, s_bkCalc},
+	{"bkVal", "bignKeypairVal", 2, s_bkVal}, {"bkDH", "bignDH", 2, s_bkDH}, {"bkKU", "bignKeyUnwrap", 2, s_bkKU},
+	{"bk96Sign", "bign96Sign", 2, s_bk96Sign}, {"bk96Sign2", "bign96Sign2", 2, s_bk96Sign2}, {"bk96Calc", "bign96PubkeyCalc", 2, s_bk96Calc},
+	{"bk96Val", "bign96KeypairVal", 2, s_bk96Val}, {"bkG12", "g12sSign", 2, s_bkG12}, {"bkDstu", "dstuSign", 2, s_bkDstu},
+	{"bkCVCW", "btokCVCWrap", 2, s_bkCVCW}, {"bkPf", "pfokPubkeyCalc", 1, s_bkPf0}, {"bkPfDH", "pfokDH", 1, s_bkPf1}, {"bkPfMTI", "pfokMTI", 1, s_bkPf2},
+	{"bkPwdP", "bpkiPrivkeyUnwrap", 1, s_bkPwd0}, {"bkPwdS", "bpkiShareUnwrap", 1, s_bkPwd1},
+	{"belsR2f", "belsRecover2", 15, s_belsR2f}, {"bpkiSWf", "bpkiShareWrap", 5, s_bpkiSWf}, {"ocraf", "botpOCRARand", 6, s_ocraf},
 	{"belsStdM", "belsStdM", 3, s_belsStdM}, {"belsValM", "belsValM", 4, s_belsValM}, {"belsGenM0", "belsGenM0", 4, s_belsGenM0},
 	{"belsGenMi", "belsGenMi", 6, s_belsGenMi}, {"belsGenMid", "belsGenMid", 3, s_belsGenMid},
 	{"csrRe", "bpkiCSRRewrap", 5, s_csrRe}, {"csrUn", "bpkiCSRUnwrap", 5, s_csrUn},
